@@ -150,6 +150,39 @@ theorem C32_cleaner_since_marking (now delay tMark : Int) (m : Mark)
   simp only [cleans, decide_eq_true_eq] at h
   omega
 
+-- ---------------------------------------------------------------- monotonicity (retention, cleaner)
+
+/-- **Retention is monotone in time**: a block not yet past its
+    retention at `now'` was not marked at any earlier `now` (a mark, once due, stays due). -/
+theorem C32_retention_monotone (p : Bool) (now now' : Int) (ret : List (Int × Int)) (b : RBlock)
+    (hle : now ≤ now') (h : marks p now ret b = true) : marks p now' ret b = true := by
+  rw [marks_iff] at h ⊢
+  exact ⟨h.1, by omega⟩
+
+/-- … and so for the whole list of marked ids: a later retention pass marks a superset. -/
+theorem C32_retention_marked_monotone (p : Bool) (now now' : Int) (ret : List (Int × Int)) (bs : List RBlock)
+    (hle : now ≤ now') : ∀ i ∈ retentionMarked p now ret bs, i ∈ retentionMarked p now' ret bs := by
+  intro i hi
+  simp only [retentionMarked, List.mem_map, List.mem_filter] at hi ⊢
+  obtain ⟨b, ⟨hb, hm⟩, e⟩ := hi
+  exact ⟨b, ⟨hb, C32_retention_monotone p now now' ret b hle hm⟩, e⟩
+
+/-- **Cleaner is monotone in time and anti-monotone in the delay**: what a later run with a
+    shorter (or equal) delay deletes includes what an earlier run with a longer delay deletes — so raising
+    `--delete-delay` never causes an earlier deletion. -/
+theorem C32_cleaner_monotone (now now' delay delay' : Int) (ms : List Mark)
+    (hn : now ≤ now') (hd : delay' ≤ delay) :
+    ∀ i ∈ cleanerDeletes now delay ms, i ∈ cleanerDeletes now' delay' ms := by
+  intro i hi
+  simp only [cleanerDeletes, List.mem_map, List.mem_filter, cleans, decide_eq_true_eq] at hi ⊢
+  obtain ⟨m, ⟨hm, hc⟩, e⟩ := hi
+  exact ⟨m, ⟨hm, by omega⟩, e⟩
+
+-- non-vacuity: a mark due at 10 s with delay 3 s is deleted at 14 s, and still at 20 s with delay 2 s
+example : cleanerDeletes (14 * nsPerSec) (3 * nsPerSec) [⟨7, 10⟩] = [7] ∧
+    cleanerDeletes (20 * nsPerSec) (2 * nsPerSec) [⟨7, 10⟩] = [7] := by decide
+
+
 -- ---------------------------------------------------------------- partial uploads
 
 theorem maxOf_ge : ∀ (xs : List Int) (m : Int), maxOf xs = some m → ∀ x ∈ xs, x ≤ m
